@@ -331,9 +331,26 @@ def r1(ctx):
 def ctor_args(repo, call: ast.Call, cls_name: str, module: Optional[str] = None) -> Dict[str, ast.AST]:
     ci = repo.cls(cls_name, module)
     init = repo.lookup_method(ci, "__init__")
-    if init is None:
-        raise AnalysisError(f"{cls_name}.__init__ not found")
-    params = [a.arg for a in init.node.args.args][1:]
+    if init is not None:
+        params = [a.arg for a in init.node.args.args][1:]
+    else:
+        # @dataclass: the generated __init__ takes the annotated fields in order (not ClassVar, not field(init=False))
+        if not any((ap(d.func) if isinstance(d, ast.Call) else ap(d) or "").split(".")[-1] == "dataclass"
+                   for d in ci.node.decorator_list):
+            raise AnalysisError(f"{cls_name}.__init__ not found")
+        params = []
+        for c in reversed(repo.mro(ci)):
+            for st in c.node.body:
+                if not (isinstance(st, ast.AnnAssign) and isinstance(st.target, ast.Name)):
+                    continue
+                if "ClassVar" in src(st.annotation):
+                    continue
+                v = st.value
+                if isinstance(v, ast.Call) and call_attr(v) == "field" and \
+                        any(k.arg == "init" and isinstance(k.value, ast.Constant) and k.value.value is False for k in v.keywords):
+                    continue
+                if st.target.id not in params:
+                    params.append(st.target.id)
     out = {}
     for i, a in enumerate(call.args):
         if i < len(params):
@@ -814,6 +831,76 @@ def r3(ctx):
                    f"flavor (banned from UDP): it is forwarded instead of discarded")
 
 
+MSGXML = "hippolyzer/lib/base/message/data/message.xml"
+
+
+def r3_msgxml(ctx):
+    """The ban table itself: the LLSD map parser keeps the last of two equal keys, so a message listed twice
+    silently takes the later flavor.  The data file is read as text and parsed with the stdlib XML parser."""
+    import os
+    import xml.etree.ElementTree as ET
+    repo = ctx.repo
+    text = repo.overlay.get(MSGXML)
+    if text is None:
+        path = os.path.join(repo.root, MSGXML)
+        if not os.path.exists(path):
+            raise AnalysisError(f"anchor data file vanished: {MSGXML}")
+        with open(path, encoding="utf8") as f:
+            text = f.read()
+    try:
+        root = ET.fromstring(text)
+    except ET.ParseError as e:
+        raise AnalysisError(f"{MSGXML} is not well-formed XML: {e}")
+    nmaps = nkeys = 0
+    top = root.find("map")
+    ctx.require(top is not None, f"{MSGXML}: top-level <map> not found")
+
+    def flavor_of(val):
+        """What the ban predicate reads from a row: its `flavor` (rows that are not maps: their text)."""
+        if val is None:
+            return None
+        if val.tag != "map":
+            return (val.tag, (val.text or "").strip())
+        kids = list(val)
+        for i in range(0, len(kids) - 1, 2):
+            if kids[i].tag == "key" and (kids[i].text or "").strip() == "flavor":
+                return ("flavor", (kids[i + 1].text or "").strip())
+        return ("flavor", None)
+
+    def visit(m, label):
+        nonlocal nmaps, nkeys
+        nmaps += 1
+        seen: Dict[str, list] = {}
+        kids = list(m)
+        i = 0
+        while i < len(kids):
+            k = kids[i]
+            if k.tag != "key":
+                raise AnalysisError(f"{MSGXML}: map {label} has a value without a key")
+            name = (k.text or "").strip()
+            nkeys += 1
+            val = kids[i + 1] if i + 1 < len(kids) else None
+            seen.setdefault(name, []).append(flavor_of(val))
+            if val is not None and val.tag == "map":
+                visit(val, f"{label}.{name}")
+            i += 2
+        conflicting = sorted(k_ for k_, vs in seen.items() if len(set(vs)) > 1)
+        benign = sorted(k_ for k_, vs in seen.items() if len(vs) > 1 and len(set(vs)) == 1)
+        if benign:
+            ctx.note(f"message.xml: key(s) {benign} occur more than once in map {label} with the same flavor "
+                     f"(the parser keeps the last row; the UDP-ban verdict is unaffected)")
+        if label.count(".") >= 2 and not conflicting:
+            return      # per-message rows: reported only when they conflict
+        ctx.ob("C06.R3", f"message.xml: no key of map {label} is listed twice with different flavors", not conflicting, MSGXML,
+               f"key(s) {conflicting} occur twice with different flavors: the LLSD parser keeps the last row, so whether "
+               f"the message is banned from UDP depends on which row comes later")
+    seen_top = [c.text.strip() for c in top if c.tag == "key" and c.text]
+    ctx.require("messages" in seen_top, f"{MSGXML}: no `messages` map")
+    # only the tables themselves are obligations (per-message maps are visited for their keys, reported when duplicated)
+    visit(top, "<top>")
+    ctx.floor("C06.R3", "message.xml keys", nkeys, 100)
+
+
 def r3_claim(ctx):
     """A pending session is handed to exactly one UDP association: claim_session returns a session only
     while it is pending, with the requested id, and clears `pending` before returning it."""
@@ -1134,6 +1221,7 @@ def run(ctx):
     r2(ctx)
     r2_identity(ctx)
     r3(ctx)
+    r3_msgxml(ctx)
     r3_claim(ctx)
     r4(ctx)
     r5(ctx)
